@@ -21,7 +21,8 @@ static void gen_values(Rnd& r, int mode, bool srcMulti, bool dstMulti, std::vect
 	for (int i = 0; i < ns; ++i)
 	{
 		int64_t k = r.range(0, span);
-		if (mode == 1) k += 0; if (mode == 2) k += 200;
+		if (mode == 2) k += 200;
+		if (mode == 3 && i == 0) k = span;                 // touching ranges: the largest source key == the smallest destination key
 		if (!srcMulti && !ks.insert(k).second) continue;
 		src.push_back(k * 100 + r.range(1, 49));
 	}
@@ -29,6 +30,7 @@ static void gen_values(Rnd& r, int mode, bool srcMulti, bool dstMulti, std::vect
 	{
 		int64_t k = r.range(0, span);
 		if (mode == 1) k += 200;
+		if (mode == 3) k = (i == 0) ? span : k + span;
 		if (!dstMulti && !kd.insert(k).second) continue;
 		dst.push_back(k * 100 + r.range(50, 99));
 	}
@@ -57,7 +59,7 @@ static void merge_scenario(Report& rep, const char* name, uint64_t seed, int src
 		Counters c1 = snap();
 		MSet s1 = values(src), d1 = values(dst);
 		std::string tag = std::string(name) + " kind=" + std::to_string(kind) + " k=" + std::to_string(k) + (ok ? " (completed)" : " (threw)");
-		if (plus(s1, d1) != init) rep.fail(tag + ": src+dst not conserved: src=" + show(s1) + " dst=" + show(d1) + " initial src=" + show(src0) + " dst=" + show(dst0));
+		if (plus(s1, d1) != init) rep.fail(tag + ": src+dst not conserved: " + diffstr(plus(s1, d1), init) + " src=" + show(s1) + " dst=" + show(d1) + " initial src=" + show(src0) + " dst=" + show(dst0));
 		if (!MD::multi && dup_keys(d1)) rep.fail(tag + ": duplicate key in unique destination " + show(d1));
 		if (!MS::multi && dup_keys(s1)) rep.fail(tag + ": duplicate key in unique source " + show(s1));
 		if (!MD::multi)
@@ -270,9 +272,14 @@ static void map_scenario(Report& rep, const char* name, uint64_t seed, int srcMg
 		bool f = done(kind);
 		Counters c1 = snap();
 		MSet s1 = pair_values(src), d1 = pair_values(dst);
-		if (plus(plus(s1, d1), held) != init) rep.fail(tag + ": key/value pairs not conserved: src=" + show(s1) + " dst=" + show(d1) + " handle=" + show(held));
+		bool lenient = false;
+		if (plus(plus(s1, d1), held) != init)
+		{
+			if (!ok && !E::movable && only_values_changed(plus(plus(s1, d1), held), init)) { ++rep.documented; lenient = true; }
+			else rep.fail(tag + ": key/value pairs not conserved: " + diffstr(plus(plus(s1, d1), held), init) + " src=" + show(s1) + " dst=" + show(d1) + " handle=" + show(held));
+		}
 		{ std::set<int64_t> ks; for (auto ref : dst) if (!ks.insert(keyof(ref.key.Value())).second) rep.fail(tag + ": duplicate key in destination map"); }
-		if (!extract) for (auto& p : s0) if (dkeys0.count(keyof(p.first / 100000)) && !s1.count(p.first)) rep.fail(tag + ": refused pair left the source");
+		if (!extract && !lenient) for (auto& p : s0) if (dkeys0.count(keyof(p.first / 100000)) && !s1.count(p.first)) rep.fail(tag + ": refused pair left the source");
 		if (ok && !extract) { std::set<int64_t> dk; for (auto ref : dst) dk.insert(keyof(ref.key.Value())); for (auto ref : src) if (!dk.count(keyof(ref.key.Value()))) rep.fail(tag + ": pair stayed in the source although accepted"); }
 		if (E::movable && (c1.copy != c0.copy || c1.copy_assign != c0.copy_assign)) rep.fail(tag + ": movable keys/values were copied");
 		for (auto ref : dst) if (!dst.ContainsKey(ref.key)) { rep.fail(tag + ": destination key not findable"); break; }
@@ -286,7 +293,7 @@ static void map_scenario(Report& rep, const char* name, uint64_t seed, int srcMg
 static const char* SCEN[] = {
 	"merge_hs_hs_eq", "merge_hs_hs_ne", "merge_hsd_hsd", "merge_hs_hsd_from",
 	"merge_ts_ts", "merge_tsm_tsm", "merge_ts_tsm",
-	"merge_tsd_tsd_eq", "merge_tsd_tsd_eq_ordered", "merge_tsd_tsd_eq_ordered_rev", "merge_tsd_tsd_ne", "merge_tsdm_tsdm_eq", "merge_tsdm_tsdm_ordered",
+	"merge_tsd_tsd_eq", "merge_tsd_tsd_eq_ordered", "merge_tsd_tsd_eq_ordered_rev", "merge_tsd_tsd_ne", "merge_tsdm_tsdm_eq", "merge_tsdm_tsdm_ordered", "merge_tsd_tsd_eq_touching", "merge_tsdm_tsdm_touching",
 	"merge_ts_hs", "merge_hs_ts", "merge_hsd_tsm", "merge_tsd_hsd_from",
 	"extract_hs_hs", "extract_ts_ts", "extract_hs_hsd", "extract_ts_tsm", "extract_tsm_tsm",
 	"insert_range_hsd", "insert_range_ts", "insert_range_tsm", "insert_il_hs", "insert_il_tsd",
@@ -312,6 +319,8 @@ static void run_scenario(Report& rep, const std::string& s, uint64_t seed)
 	else if (s == "merge_tsd_tsd_ne") merge_scenario<E, MkTSD<E, false>, MkTSD<E, false>>(rep, n, seed, 1, 2, 0, false);
 	else if (s == "merge_tsdm_tsdm_eq") merge_scenario<E, MkTSD<E, true>, MkTSD<E, true>>(rep, n, seed, 1, 1, 0, false);
 	else if (s == "merge_tsdm_tsdm_ordered") merge_scenario<E, MkTSD<E, true>, MkTSD<E, true>>(rep, n, seed, 1, 1, 1, false);
+	else if (s == "merge_tsd_tsd_eq_touching") merge_scenario<E, MkTSD<E, false>, MkTSD<E, false>>(rep, n, seed, 1, 1, 3, false);
+	else if (s == "merge_tsdm_tsdm_touching") merge_scenario<E, MkTSD<E, true>, MkTSD<E, true>>(rep, n, seed, 1, 1, 3, true);
 	else if (s == "merge_ts_hs") merge_scenario<E, MkTS<E, false>, MkHS<E>>(rep, n, seed, 1, 2, 0, false);
 	else if (s == "merge_hs_ts") merge_scenario<E, MkHS<E>, MkTS<E, false>>(rep, n, seed, 1, 1, 0, false);
 	else if (s == "merge_hsd_tsm") merge_scenario<E, MkHSD<E>, MkTS<E, true>>(rep, n, seed, 2, 1, 0, false);
